@@ -176,6 +176,9 @@ func (c *Ctx) Sort(t types.Type) string {
 		ks, vs := c.Sort(u.Key()), c.Sort(u.Elem())
 		name := "Mp_" + mangle(ks) + "_" + mangle(vs)
 		c.decl("dt:"+name, fmt.Sprintf("(declare-datatypes ((%s 0)) (((mk_%s (dom_%s (Array %s Bool)) (val_%s (Array %s %s))))))", name, name, name, ks, name, ks, vs))
+		if !c.declared["fun:card_"+name] {
+			c.axioms = append(c.axioms, condAxiom{[]string{"(card_" + name + " "}, fmt.Sprintf("(forall ((d (Array %s Bool))) (! (>= (card_%s d) 0) :pattern ((card_%s d))))", ks, name, name)})
+		}
 		c.decl("fun:card_"+name, fmt.Sprintf("(declare-fun card_%s ((Array %s Bool)) Int)", name, ks))
 		return name
 	case *types.Interface:
